@@ -10,7 +10,7 @@ trap 'git -C /repo checkout -- . ' EXIT
 cd /verif
 for id in "$@"; do
   echo "--- $id (plain quick)"
-  CPF_NO_ADAPTIVE=1 ./check "$id" quick 2>&1 | grep -a "VIOLATION\|KNOWN-FINDING\|Traceback" | cut -c1-330 | head -6
+  CPF_NO_ADAPTIVE=1 ./check "$id" quick 2>&1 | grep -a "^VIOLATION\|Traceback" | cut -c1-330 | head -6
   rc=${PIPESTATUS[0]}; echo "rc=$rc"
   if [ "$rc" = "0" ]; then
     echo "--- $id (adaptive depth)"
